@@ -81,15 +81,21 @@ CHECKS = {
             'and both tag settings on every non-sampling case.',
             'Trusted: Lean kernel; CPython re; the sampling loop (oracle only).',
             'DESIGN.md 4 C13'),
-    'C14': ('Lean 4 theorems over a model of the rexpy batch pipeline + model/implementation correspondence (partial)',
-            'Kernel-checked theorems (batch path): a frequency dictionary and the list it stands for clean to the same '
-            'examples and give the same result; without pruning options frequencies are irrelevant and repeating an example '
-            'is a no-op; the model is a pure function of (table, options, examples) so a call cannot depend on history. '
-            'PARTIAL: invariance under reordering is not proved - the model is tied to the code on a permutation and the '
-            'dictionary form of every case and the oracle compares 5 permutations per case on the real code; seeds, '
-            'global PRNG state, sampling and the regex memo are runtime behaviour decided by the oracle only.',
-            'Trusted: Lean kernel; CPython set / dict iteration order for the run; PRNG. One fixed finding (first sample '
-            'drawn before seeding).',
+    'C14': ('Lean 4 theorems over a model of the rexpy batch pipeline + model/implementation correspondence (partial: sampling, seeds, PRNG and memo are runtime)',
+            'Kernel-checked theorems (batch path, i.e. below the sampling threshold): order_independent - for every character '
+            'table, option record (with or without pruning options) and every two orderings of the same examples the whole '
+            'result is equal (patterns in order, extra letters, whitespace wrapping), proved stage by stage (cleaning, coarse '
+            'classes, grouping, sorting, fine analysis, refinement, frequencies); a frequency dictionary and the list it '
+            'stands for give the same result; without pruning options frequencies are irrelevant and repeating an example is '
+            'a no-op; the model is a pure function of (table, options, examples) so a call cannot depend on history. The '
+            'model is tied to rexpy.extract on the given order, a permutation and the dictionary form of every non-sampling '
+            'case. PARTIAL: behaviour under sampling, seeds, the global PRNG state, hash order and the regex memo are runtime: '
+            'the oracle compares 5 permutations, the dictionary form, a repeat, a repeated example and a call after an '
+            'unrelated extraction on the real code, repeats seeded calls from other PRNG states, compares the PRNG state '
+            'before / after, and re-evaluates every deterministic case alone in a freshly forked interpreter under another '
+            'PYTHONHASHSEED.',
+            'Trusted: Lean kernel; CPython set / dict iteration order; PRNG; sampling loop not modelled. One fixed finding '
+            '(first sample drawn before seeding).',
             'DESIGN.md 4 C14'),
     'C04': ('Lean 4 theorems over a line-by-line model of check_strings + model/implementation correspondence',
             'Kernel-checked theorem check_pass_iff: for every pair of line lists, every option record and every match '
